@@ -84,7 +84,7 @@ def export_cases(draw):
 
 class Export(Facet):
     name = "export"
-    examples = {"quick": 3000, "thorough": 40000}
+    examples = {"quick": 3000, "thorough": 120000}
     shards = {"quick": 8, "thorough": 16}
 
     def strategy(self, tier):
@@ -184,7 +184,7 @@ def roundtrip_cases(draw):
 
 class RoundTrip(Facet):
     name = "roundtrip"
-    examples = {"quick": 5000, "thorough": 80000}
+    examples = {"quick": 5000, "thorough": 240000}
     shards = {"quick": 16, "thorough": 16}
 
     def strategy(self, tier):
@@ -292,7 +292,7 @@ def rendered_cases(draw):
 
 class Rendered(Facet):
     name = "rendered"
-    examples = {"quick": 6000, "thorough": 100000}
+    examples = {"quick": 6000, "thorough": 300000}
     shards = {"quick": 16, "thorough": 16}
 
     def strategy(self, tier):
@@ -304,7 +304,7 @@ class Rendered(Facet):
 
 class Weak(Facet):
     name = "weak"
-    examples = {"quick": 3000, "thorough": 50000}
+    examples = {"quick": 3000, "thorough": 150000}
     shards = {"quick": 16, "thorough": 16}
 
     def strategy(self, tier):
